@@ -38,13 +38,13 @@ TablesOK ==
 (*   mutate     : c.put(..)      -- a &mut self call                                    *)
 (*   read       : c.len()        -- a &self call                                        *)
 (*   drop       : drop(c)        -- the cache's lifetime ends                           *)
-Take(v)     == [op |-> "take",   var |-> v,  src |-> ""]
+Take(v)       == [op |-> "take",   var |-> v,  src |-> ""]
 CloneOf(v, s) == [op |-> "clone",  var |-> v,  src |-> s]
-NextOf(v, s) == [op |-> "next",   var |-> v,  src |-> s]
-Use(v)      == [op |-> "use",    var |-> v,  src |-> ""]
-Mutate      == [op |-> "mutate", var |-> "", src |-> ""]
-Read        == [op |-> "read",   var |-> "", src |-> ""]
-DropC       == [op |-> "drop",   var |-> "", src |-> ""]
+NextOf(v, s)  == [op |-> "next",   var |-> v,  src |-> s]
+Use(v)        == [op |-> "use",    var |-> v,  src |-> ""]
+Mutate        == [op |-> "mutate", var |-> "", src |-> ""]
+Read          == [op |-> "read",   var |-> "", src |-> ""]
+DropC         == [op |-> "drop",   var |-> "", src |-> ""]
 
 Shapes == {"hold_across_mutation", "hold_across_read", "outlive", "double", "use_then_mutate",
            "clone_result"}
